@@ -53,6 +53,28 @@ class Recorder:
 
         CsvPaths.csvpath = factory
         CsvPath._consider_line = consider
+        # the records a line-major run reads, by identity: a record no member considers can still be handed to the caller
+        from csvpath.managers.files.file_manager import FileManager
+
+        self._orig_get_reader = FileManager.__dict__["get_reader"]
+        orig_get = FileManager.get_reader
+
+        def get_reader(path, **kw):
+            reader = orig_get(path, **kw)
+            inner = reader.next
+
+            def nxt():
+                for k, line in enumerate(inner()):
+                    rec.line_objs.setdefault(id(line), (k, line))
+                    yield line
+
+            try:
+                reader.next = nxt
+            except Exception:
+                pass
+            return reader
+
+        FileManager.get_reader = staticmethod(get_reader)
 
     def uninstall(self):
         from csvpath import CsvPath, CsvPaths
@@ -61,6 +83,9 @@ class Recorder:
             CsvPaths.csvpath = self._orig_factory
             CsvPath._consider_line = self._orig_consider
             self._orig_factory = None
+            from csvpath.managers.files.file_manager import FileManager
+
+            FileManager.get_reader = self._orig_get_reader
 
 
 def member_trace(tid, member_case, rec_member, *, collecting, records):
